@@ -1,8 +1,9 @@
 """C15 - approximate extrema enclose the true extrema.  Rules R15.1 - R15.4."""
 import ast
+import re
 
 from ..pymodel import AnalysisError, FuncInfo, parent
-from ..astutil import (src, is_name, is_const, const_num, call_name, walk_no_nested, strip_docstring,
+from ..astutil import (expand_names, src, is_name, is_const, const_num, call_name, walk_no_nested, strip_docstring,
                        compare_atoms, enclosing_stmt, calls_in, names_in, assignments_to)
 from ..cfg import cfg_of, ENTRY, EXIT, RAISE
 from . import C02
@@ -208,7 +209,10 @@ def rules(ctx):
         facts = []
         for t, pol, o in g.edge_dominators(st):
             facts += compare_atoms(t, pol)
-        it = src(gen.iter)
+        it = src(expand_names(fn.node, gen.iter))
+        m_ = re.fullmatch(r'(?:tuple|list)\((.+)\)', it)
+        if m_:
+            it = m_.group(1)
         ok = False
         if not gen.ifs:
             ok = ('truthy', it) in facts
